@@ -89,7 +89,8 @@ LawFails(j) ==
             Bind(R[1].rule = R[2].rule /\ R[1].layers = R[2].layers /\ A(1) = A(2), "same-binding")
             \cup Law(R[1].out = R[2].out /\ R[1].obs = R[2].obs, "C15", "same-layer-rule-differs")
       [] j.law = "rename" ->
-            Bind(R[1].rule = R[2].rule /\ R[1].layers = R[2].layers /\ A(1) = A(2), "rename-binding")
+            Bind(R[1].rule = R[2].rule /\ R[1].layers = R[2].layers, "rename-binding")
+            \cup Law(A(1) = A(2), "C14", "renaming-changes-the-architecture-built-from-the-same-modules-and-imports")
             \cup Law(R[1].out = R[2].out /\ R[1].obs = R[2].obs, "C14", "renaming-changes-layer-outcome")
       [] j.law = "drop" ->       \* unmentioned layers removed from the definition (however they were defined)
             Bind(R[1].rule = R[2].rule /\ A(1) = A(2)
